@@ -65,10 +65,10 @@ POOL = [
 class TreeCase:
     def __init__(self, ch):
         self.ch = ch
-        self.nfun = ch.int(1, 3, "t.nfun")
+        self.nfun = ch.int(1, 2, "t.nfun")
         self.funs = []
         for f in range(self.nfun):
-            depth = ch.int(2, 4, f"t.{f}.depth")
+            depth = ch.int(3, 4, f"t.{f}.depth")
             self.funs.append((f"check_t{f}(uint256,uint256,uint256)", self._node(depth, f"t.{f}")))
 
     def _node(self, depth, lbl):
@@ -76,7 +76,7 @@ class TreeCase:
         if depth == 0 or ch.chance(0.15, lbl + ".early"):
             return ("leaf", ch.choose(["panic", "panic", "success", "assert", "revert"], lbl + ".leaf"))
         p = ch.pick(len(POOL), lbl + ".p")
-        if ch.chance(0.25, lbl + ".assume"):
+        if ch.chance(0.35, lbl + ".assume"):
             # vm.assume(pred): a constraint that enters the path without a branching query
             return ("assume", p, self._node(depth - 1, lbl + "A"))
         return ("node", p, self._node(depth - 1, lbl + "T"), self._node(depth - 1, lbl + "F"))
@@ -129,7 +129,7 @@ class C16Check:
     property_id = "C16"
     name = "c16-run-sim"
     level = "exploration"
-    rule = ("each run = one generated contract with 1-3 check functions, each a decision tree of depth 2-4 over three arguments with "
+    rule = ("each run = one generated contract with 1-2 check functions, each a decision tree of depth 3-4 over three arguments with "
             "predicates drawn from a pool containing solver-only contradictions (so unsatisfiable assertion-failing paths with unsat cores "
             "of many shapes share prefixes with satisfiable ones), run by run_contract under the simulator with --cache-solver, branching "
             "`unknown` for every branching query (so infeasible paths survive identically in both twins), 1-4 solver threads, seeded solver latencies (they decide when a core becomes visible), gc.collect() "
@@ -161,7 +161,7 @@ class C16Check:
         threads = ch.choose([1, 1, 2, 4], "sw.threads")
         # every branching query is answered `unknown` (a sampled rate would give the two twins different explorations)
         unknown_rate = 1.0
-        gc_rate = ch.choose([0.0, 0.5, 1.0], "sw.gc")
+        gc_rate = ch.choose([0.0, 1.0, 1.0], "sw.gc")
         core_fault = ch.choose([None, None, "core_missing", "core_garbled", "core_empty"], "sw.corefault")
         case = TreeCase(ch)
         rt, cj, bom = case.build()
